@@ -63,10 +63,12 @@ fn passes(prop: &str, tier: Tier) -> Vec<Bounds> {
             }
         }
         "C13" | "C19" => {
-            let mut v = if q {
-                vec![bounds(3, 2, 1, 1, shapes_gen()), bounds(2, 3, 2, 2, shapes_gen())]
-            } else {
-                vec![bounds(3, 3, 1, 1, shapes_gen()), bounds(4, 2, 1, 1, shapes_gen()), bounds(2, 3, 2, 2, shapes14())]
+            let six = vec![S(1, 1), S(4, 4), S(0, 1), S(3, 1), S(8, 8), Shape { size: 2, align: 2, uninit: true }];
+            let mut v = match (prop, q) {
+                ("C13", true) => vec![bounds(3, 2, 1, 1, shapes_gen()), bounds(2, 2, 2, 2, shapes_gen())],
+                ("C13", false) => vec![bounds(3, 3, 1, 1, shapes_gen()), bounds(4, 2, 1, 1, shapes_gen()), bounds(2, 3, 2, 2, shapes_gen())],
+                (_, true) => vec![bounds(3, 2, 1, 1, six)],
+                (_, false) => vec![bounds(3, 2, 1, 1, shapes_gen()), bounds(2, 3, 2, 2, shapes_gen()), bounds(4, 2, 1, 1, six)],
             };
             for b in &mut v {
                 b.ghosts = true;
